@@ -226,9 +226,8 @@ func oneHandover(r *vf.Run, a *app.App, me *refctl.Identity, acc app.StoredEntit
 		}
 	}
 	r.Count("handovers_ok", 1)
-	if mode != 0 {
-		return
-	}
+	// (under every schedule: with a late abort the read that was blocked while the second exchange was handled
+	// is still waiting when the first frame under the new keys arrives)
 	// pair-verify once more on the same, now encrypted, connection (the session "allows to switch encryption"):
 	// M1..M4 travel under the current keys, everything after M4 under the keys of the new exchange
 	v2, err := c.StartVerify(me, acc.PublicKey, acc.Name, nil)
@@ -260,6 +259,7 @@ func oneHandover(r *vf.Run, a *app.App, me *refctl.Identity, acc app.StoredEntit
 		}
 	}
 	r.Count("reverifications_ok", 1)
+	r.Count("reverifications_ok_"+scheduleNames[mode], 1)
 }
 
 func stageSig(err error) string {
